@@ -6,6 +6,7 @@ import importlib.util
 import inspect
 import math
 import operator
+import os
 import socket
 import sys
 import warnings
@@ -40,10 +41,16 @@ def load(path: Path, *, cache: bool = False) -> Any:
 
 
 def dump(obj: Any, path: Path) -> None:
-    """Dump an object to a path using cloudpickle."""
+    """Dump an object to a path using cloudpickle.
+
+    The data is written to a temporary file that is renamed into place, such that
+    ``path`` either does not exist or is complete, also if the process is killed.
+    """
     path.parent.mkdir(parents=True, exist_ok=True)
-    with path.open("wb") as f:
+    tmp = path.with_name(f".{path.name}.{os.getpid()}.tmp")
+    with tmp.open("wb") as f:
         cloudpickle.dump(obj, f)
+    tmp.replace(path)
 
 
 def _get_cache_key(path: Path) -> tuple:
